@@ -9,6 +9,17 @@ import copy
 
 
 _SHARED = {}
+_SHARED_SETS = {}
+
+
+def _shared_set(sp, key):
+    """sp[key + "_shared"] = name: every lanelet spec that names the same key gets the SAME set object (a caller-owned set passed to two constructors)"""
+    name = sp.get(key + "_shared")
+    if name is None:
+        return set(sp.get(key, []))
+    if name not in _SHARED_SETS:
+        _SHARED_SETS[name] = set(sp.get(key, []))
+    return _SHARED_SETS[name]
 
 
 def mk_shape(sp):
@@ -131,7 +142,7 @@ def mk_lanelet(sp):
                    lanelet_type={LaneletType[t] for t in sp.get("types", [])},
                    user_one_way={RoadUser[u] for u in sp.get("users_one_way", [])},
                    user_bidirectional={RoadUser[u] for u in sp.get("users_bidirectional", [])},
-                   traffic_signs=set(sp.get("signs", [])), traffic_lights=set(sp.get("lights", [])), adjacent_areas=set())
+                   traffic_signs=_shared_set(sp, "signs"), traffic_lights=_shared_set(sp, "lights"), adjacent_areas=set())
 
 
 def mk_sign(sp):
@@ -184,6 +195,7 @@ def mk_sid(sp):
 def mk_network(spec, via="add"):
     from commonroad.scenario.lanelet import LaneletNetwork, MapInformation
     from commonroad.common.util import Time
+    _SHARED_SETS.clear()
     net = LaneletNetwork(MapInformation(date=Time(12, 0, 1, 1, 2020)))
     for l in spec.get("lanelets", []):
         net.add_lanelet(mk_lanelet(l))
@@ -214,7 +226,7 @@ def mk_pps(spec):
 def build(spec):
     """-> (Scenario, PlanningProblemSet), all objects fresh"""
     from commonroad.scenario.scenario import Scenario, Tag
-    _SHARED.clear()
+    _SHARED.clear(); _SHARED_SETS.clear()
     sc = Scenario(spec.get("dt", 0.1), mk_sid(spec.get("sid")), author=spec.get("author", "A. Author"),
                   tags=None if spec.get("tags") is None else {Tag[t] for t in spec["tags"]},
                   affiliation=spec.get("affiliation", "TUM"), source=spec.get("source", "handmade"), location=mk_location(spec.get("location")))
